@@ -1,7 +1,7 @@
 #!/usr/bin/env python3
 """Regenerates MANIFEST.json from the table below (kept as a script so that it stays consistent)."""
 import json, subprocess
-hooks_commit = "39dace2"
+hooks_commits = ["39dace2", "8ee40f6"]
 P = {
  "C01": ("model-based stateful property testing (proptest histories vs reference map; peek/pop extreme validity + clone-drain after every step)",
          "Generated histories (16 workers) over the full PriorityQueue alphabet with ties, extremes and targeted arrangements; after every step peek must be a model maximum, every pop/pop_if/peek_mut must address the peeked element, and a clone is drained by pop against the sorted model. Exploration: no absence claim beyond the sizes (<=200 quick, <=2000 thorough) and lengths explored.", "3 C01"),
@@ -62,7 +62,7 @@ m = {
    "guard": "--cfg priority_queue_verif",
    "enable": "RUSTFLAGS=\"--cfg priority_queue_verif\" (set by /verif/check for every build of the harness, which depends on /repo by path)",
    "baseline_off_cmd": "cd /repo && cargo test --workspace --no-fail-fast --offline",
-   "source_commits": [hooks_commit],
+   "source_commits": hooks_commits,
    "add_only": True,
  },
  "engines": [{"name": "pqv", "path": "/verif/harness", "serves_properties": sorted(P.keys()), "kind_free_text": "Rust harness: proptest-driven case generation, interpreter with reference model and oracles, 16 journalled worker processes driven by /verif/check (python3)"}],
